@@ -33,7 +33,7 @@ func init() {
 					"LCS/LCSFunc: every pair over alphabet 2 x length <= 7 and alphabet 3 x length <= 5 (exhaustive) plus random pairs up to 300 of very different lengths and pairs of 4100..11700 elements (length products past 2^24..2^27). " +
 					"Checks: returned elements identify strictly increasing positions of the input (for LCS: of one input, and their values form a subsequence of the other), strict / non-strict order under the comparator used, length == quadratic reference, inputs unmodified; 8 goroutines call LIS/LNDS/LCS concurrently on unshared inputs (plain and under -race), a comparison callback that itself calls LIS (re-entrancy), and LCS instantiated with interface-typed elements; interleaved with all of it, calls that are abandoned half-way (the comparison function panics after m calls and the caller recovers) so that every verified call also runs right after a failed one. " +
 					"distinct = the input (enumerated without repetition; random by hash); non-trivial = the input has a repeated value (ties)",
-				Required:     []string{"lis_inputs", "lnds_inputs", "lcs_pairs", "wide_comparator_inputs", "reversed_comparator_inputs", "lcs_unequal_length_pairs", "structured_two_run_inputs", "concurrent_calls", "reentrant_calls", "interface_element_cases", "abandoned_calls", "very_large_inputs", "wraparound_schedules", "very_long_answer_inputs"},
+				Required:     []string{"lis_inputs", "lnds_inputs", "lcs_pairs", "wide_comparator_inputs", "reversed_comparator_inputs", "lcs_unequal_length_pairs", "structured_two_run_inputs", "concurrent_calls", "reentrant_calls", "interface_element_cases", "abandoned_calls", "very_large_inputs", "wraparound_schedules", "very_long_answer_inputs", "monotone_run_inputs"},
 				Exhaustive:   true,
 				Assumptions:  []string{"quadratic DP references for LIS/LNDS/LCS lengths"},
 				CoverPkgs:    []string{"github.com/creachadair/mds/slice"},
@@ -828,6 +828,31 @@ func runC12(c *fw.Ctx) {
 		c12lcs(c, nil, []int{1, 2})
 		c12lcs(c, []int{1}, nil)
 		c12lcs(c, []int{}, []int{})
+	}
+	// inputs made of a few monotone runs (descending and ascending stretches of
+	// 1..40 elements at random levels, single outliers between them): streaks of
+	// events of one kind followed by one of another kind
+	for k := 0; k < c.Pick(3000, 40000); k++ {
+		if !c.Begin(idx + 600000 + k) {
+			continue
+		}
+		r := c.Rng()
+		var vs []int
+		for runs := 2 + r.IntN(7); runs > 0; runs-- {
+			L := 1 + r.IntN(40)
+			base := r.IntN(200)
+			step := []int{-1, 1, -3, 2, 0}[r.IntN(5)]
+			for i := 0; i < L; i++ {
+				vs = append(vs, base+i*step)
+			}
+			if r.IntN(2) == 0 {
+				vs = append(vs, r.IntN(260)) // an outlier: possibly a new maximum
+			}
+		}
+		c12seq(c, vs, r.IntN(len(c12cmps)))
+		c.Add("monotone_run_inputs", 1)
+		c.Add("lis_inputs", 1)
+		c.Add("lnds_inputs", 1)
 	}
 	// random
 	nr := c.Pick(120, 1500)
